@@ -4,7 +4,7 @@ import "verif/checker/internal/gen"
 
 // generator-side rules shared by several properties
 
-func flagFlow(c *Ctx, flagName string) { gen.CheckFlagBinding(c.Run, c.Prog, flagName) }
+func flagFlow(c *Ctx, flagName string) { cliFlag(c, flagName) }
 
 func genMap(c *Ctx) {
 	gen.CheckKinds(c.Run, c.Prog)
